@@ -140,7 +140,7 @@ namespace AF.Msg
 and `log = id` the Gamma equation `ψ(x) − log x = c` is linear and Newton's method is exact after one step -/
 def spQ : Sp ℚ :=
   { lgamma := id, digamma := fun x => 2 * x, trigamma := fun x => 1 + 1 / x, log1p := id, rpow := fun x _ => x,
-    nanToNum := id, abs := fun x => if x < 0 then -x else x, cA := 1, cB := 1, cG := 1 }
+    nanToNum := id, nanToNum0 := id, abs := fun x => if x < 0 then -x else x, cA := 1, cB := 1, cG := 1 }
 
 /-- with `ψ(x) = x`, `ψ'(x) = 1` the two Beta equations are linear with Jacobian `[[0, -1], [-1, 0]]` -/
 def spQ2 : Sp ℚ := { spQ with digamma := id, trigamma := fun _ => 1 }
